@@ -411,6 +411,24 @@ var numberPlaces = []numberPlace{
 		}
 		return anyOf(t)
 	}},
+	{"object member followed by other members", func(l string) string { return `{"k":` + l + `,"m":7,"z":"s","y":[1,"t"],"o":{"q":2}}` }, func() any { return new(any) }, func(t any) any {
+		if o, ok := anyOf(t).(map[string]any); ok && len(o) == 5 && o["z"] == "s" {
+			return o["k"]
+		}
+		return anyOf(t)
+	}},
+	{"object member after another number", func(l string) string { return `{"a":5,"k":` + l + `,"m":7}` }, func() any { return new(any) }, func(t any) any {
+		if o, ok := anyOf(t).(map[string]any); ok && len(o) == 3 {
+			return o["k"]
+		}
+		return anyOf(t)
+	}},
+	{"array element followed by other elements", func(l string) string { return `[` + l + `,7,"s",[2]]` }, func() any { return new(any) }, func(t any) any {
+		if a, ok := anyOf(t).([]any); ok && len(a) == 4 && a[2] == "s" {
+			return a[0]
+		}
+		return anyOf(t)
+	}},
 	{"named empty interface field", func(l string) string { return `{"K":` + l + "}" }, func() any { return new(struct{ K namedEmptyIface }) }, func(t any) any {
 		return t.(*struct{ K namedEmptyIface }).K
 	}},
